@@ -171,13 +171,13 @@ func famC07(c *hx.Ctx) []*scenario {
 			add(&scenario{name: name, mode: m, steps: steps})
 		}
 		// the connection fails at the k-th packet the broker sends (first connection and after the first resume)
-		if si%3 == 0 || c.Thorough() {
+		if (!c.Thorough() && si%3 == 0) || (c.Thorough() && (len(sc) <= 3 || si%7 == 0)) {
 			for k := 2; k <= 2+len(sc); k++ {
 				add(&scenario{name: name + fmt.Sprintf("-fs%d", k), steps: steps, failSend: map[int]map[int]bool{1: {k: true}, 2: {k + 1: true}}})
 			}
 		}
 		// a session call fails
-		if si%7 == 0 || c.Thorough() {
+		if (!c.Thorough() && si%7 == 0) || (c.Thorough() && (len(sc) <= 3 || si%11 == 0)) {
 			for k := 1; k <= 2+2*len(sc); k++ {
 				add(&scenario{name: name + fmt.Sprintf("-fq%d", k), steps: steps, failSess: map[int]bool{k: true}})
 			}
@@ -271,12 +271,12 @@ func famC08(c *hx.Ctx) []*scenario {
 		}
 		name := strings.Join(names, ".")
 		add(&scenario{name: name, steps: steps, w: 2, deqAck: si%4 == 0})
-		if si%4 == 0 || c.Thorough() {
+		if (!c.Thorough() && si%4 == 0) || (c.Thorough() && (len(sc) <= 3 || si%7 == 0)) {
 			for k := 2; k <= 2+len(sc); k++ {
 				add(&scenario{name: name + fmt.Sprintf("-fs%d", k), steps: steps, w: 2, failSend: map[int]map[int]bool{1: {k: true}, 2: {k: true}}})
 			}
 		}
-		if si%9 == 0 || c.Thorough() {
+		if (!c.Thorough() && si%9 == 0) || (c.Thorough() && (len(sc) <= 3 || si%11 == 0)) {
 			for k := 1; k <= 3+2*len(sc); k++ {
 				add(&scenario{name: name + fmt.Sprintf("-fq%d", k), steps: steps, w: 2, failSess: map[int]bool{k: true}})
 			}
